@@ -8,26 +8,26 @@ from common import VERIF, NCPU
 
 NS = "EngineModel.Properties.C01V2Convert."
 LEAN_MODULE = "Properties.C01V2Convert"
-EQ = ["cv_track_eq_hand", "cv_cues_eq_hand", "cv_loops_eq_hand"]
+EQ = ["cv_track_eq_hand", "cv_cues_eq_hand", "cv_loops_eq_hand", "cv_grid_eq_hand"]
 THEOREMS_C01 = [NS + t for t in EQ + [
-    "cv_album_art_id", "cv_rating_roundtrip", "cv_rating_stored_range", "cv_duration_roundtrip", "cv_bpm_roundtrip",
+    "cv_album_art_id", "cv_grid_roundtrip", "cv_rating_roundtrip", "cv_rating_stored_range", "cv_duration_roundtrip", "cv_bpm_roundtrip",
     "cv_bpm_truncated", "cv_key_roundtrip", "cv_loudness_roundtrip", "cv_sample_rate_roundtrip",
     "cv_sample_count_roundtrip", "cv_main_cue_roundtrip", "cv_hot_cues_roundtrip", "cv_hot_cues_overflow",
     "cv_hot_cues_eight", "cv_loops_roundtrip", "cv_loops_overflow", "cv_loops_eight", "cv_write_total",
     "cv_read_duration_ub"]]
 THEOREMS_C06 = [NS + t for t in EQ + ["cv_hot_cues_eight", "cv_loops_eight", "cv_write_total"]]
 ASSUMPTION = (
-    "2.x: the pure conversions convert::read::* / convert::write::* of convert_track.hpp, convert_hot_cues.hpp and "
-    "convert_loops.hpp (29 functions / constants incl. quick_cue_blob::empty(), loop_blob::empty()) are regenerated from clang's "
+    "2.x: the pure conversions convert::read::* / convert::write::* of convert_track.hpp, convert_hot_cues.hpp, "
+    "convert_loops.hpp and convert_beatgrid.hpp (32 functions incl. quick_cue_blob::empty(), loop_blob::empty(), + 5 constants) are regenerated from clang's "
     "typed AST of v2/track_impl.cpp on every run (tools/tr_convert_v2.py -> Gen/ConvertV2Gen.lean) and PROVED equal, for every "
     "input, to the components writeRating, readDuration, writeBpm, writeHotCues, ... of the hand model that writeSnap / readSnap "
     "/ applySetter are made of (Properties/C01V2Convert.lean); the translator fails closed (a shape outside its fragment keeps "
     "the committed block, `unsupported-node` in the evidence, the differential replay alone decides); trusted: clang's AST, the "
     "AST -> Lean mapping of design/convert_v2.md with its vocabulary Pure/ConvertCxx.lean (exercised on every run by the "
-    "cv.* execution stream against the real functions); NOT regenerated: convert_beatgrid.hpp, convert_waveform.hpp and the "
+    "cv.* execution stream against the real functions); NOT regenerated: convert_waveform.hpp and the "
     "bodies of track_impl.cpp that call the conversions (hand model + differential replay as before)")
 MANIFEST_SENTENCE = ("The pure conversions convert::read / convert::write of convert_track.hpp, convert_hot_cues.hpp, "
-                     "convert_loops.hpp are regenerated from clang's typed AST on every run and proved equal, for every input, to "
+                     "convert_loops.hpp, convert_beatgrid.hpp are regenerated from clang's typed AST on every run and proved equal, for every input, to "
                      "the corresponding components of the hand model (cv_*_eq_hand), with the per-field clauses restated on the "
                      "regenerated pairs and an execution stream against the real functions.")
 TRUSTED = "tools/tr_convert_v2.py (clang-AST translator of the 2.x convert::read / convert::write helpers) + lean/EngineModel/Pure/ConvertCxx.lean (its vocabulary)"
@@ -112,6 +112,19 @@ def _loop(rng):
     return "%s %s %s %d %d %s" % (_label(rng), _f(rng), _f(rng), rng.choice([0, 0, 1, 1, 2, 255]), rng.choice([0, 0, 1, 1, 7]), _color(rng))
 
 
+def _gm(rng):
+    return "%s %s" % (_i32(rng), _f(rng))
+
+
+def _marker(rng):
+    return "%s %s %s %s" % (_f(rng), _i64(rng), _i32(rng), _i32(rng))
+
+
+def _grid(rng, g):
+    n = rng.choice([0, 1, 2, 3, 5, 40])
+    return " ".join([str(n)] + [g(rng) for _ in range(n)])
+
+
 def _list(rng, g):
     n = rng.choice([0, 1, 2, 7, 8, 8, 9, 10, rng.randrange(0, 12)])
     return " ".join([str(n)] + [g(rng) for _ in range(n)])
@@ -132,6 +145,8 @@ GENS = {
     "write_loop": _oloop, "read_loop": _loop,
     "write_loops": lambda r: _list(r, _oloop), "read_loops": lambda r: _list(r, _loop),
     "empty_cue": lambda r: "", "empty_loop": lambda r: "",
+    "read_beatgrid_marker": _marker, "read_beatgrid_markers": lambda r: _grid(r, _marker),
+    "write_beatgrid_markers": lambda r: _grid(r, _gm), "write_beatgrid": lambda r: _grid(r, _gm),
 }
 
 
